@@ -14,8 +14,12 @@ class Case:
         self.timeout = timeout; self.meta = dict(meta or {}); self.witness = witness; self.tv = tv; self.mem_gb = mem_gb
         self.extra = list(extra); self.tv_seeds = tv_seeds; self.native_defs = list(native_defs); self.replay_san = replay_san
         self.witness_timeout = witness_timeout or timeout; self.object_bits = object_bits; self.cbmc = True
+        self.fixture_b = None
     def fx_defs(self):
         fx = self.fixture
+        if self.fixture_b is not None:
+            fb = self.fixture_b
+            return ['VF_FIXTURE_A="%s"' % fx['c'], 'VF_TYPES_A="%s"' % fx['types'], 'VF_FIXTURE_B="%s"' % fb['c'], 'VF_TYPES_B="%s"' % fb['types']]
         return ['VF_FIXTURE="%s"' % fx['c'], 'VF_TYPES="%s"' % fx['types']]
     def query(self, extra_defs=(), suffix='', expect='holds', witness_of=None, timeout=None):
         m = dict(self.meta); m.update(case=self.name, fixture=self.fixture['name'], defs=self.defs + list(extra_defs))
@@ -30,6 +34,7 @@ def native_pair(case, bdir, san=False):
     fx = case.fixture
     key = _safe(case.name) + ('_san' if san else '')
     obj = real_object(fx, 'g++', san=san)
+    if case.fixture_b is not None: obj = [obj, real_object(case.fixture_b, 'g++', san=san)]
     defs = case.fx_defs() + case.defs + case.native_defs
     er = build_native(case.harness, defs, obj, os.path.join(bdir, key + '_real'), san=san)
     return er
@@ -56,6 +61,7 @@ def replay_case(pid, case, result, bdir, extra_defs=()):
     """counterexample(s) -> inputs -> run the SAME harness natively against the REAL object code.
     CBMC prints one trace per failed property; up to 4 of them are replayed and the native failures are united."""
     c2 = Case(case.name + '_rp', case.fixture, case.harness, case.defs + list(extra_defs), native_defs=case.native_defs)
+    c2.fixture_b = case.fixture_b
     exe = native_pair(c2, bdir, san=case.replay_san)
     want = {d for _, d in result.get('failed', [])}
     got = set(); runs = []; san = False; first = None
